@@ -33,6 +33,9 @@ structure Request where
   method : Nat          -- index into the server's method table; out of range = the server has no such method
   versionOk : Bool      -- `_check_protocol_version` passes (always, when the server declares no version)
   paramsOk : Bool       -- `_deserialize_params` / `_validate_call_signature` / `_validate_params` pass
+  clientRejects : Bool  -- CLIENT side: `_send_request` raises before the request is on the wire (`_validate_params`: None for a
+                        --   non-optional parameter; `_write_request`: a value `pa.array` cannot convert to the parameter's type —
+                        --   a str for an int, an int beyond 64 bits, a str that is not encodable)
   resultDecodes : Bool  -- CLIENT side, unary: `_validate_result` / `_deserialize_value` accept the value the server returns
                         --   (false when the two Protocols differ: enum member unknown to the client, None for a non-optional
                         --   result, a value of another type than the declared dataclass, …)
@@ -256,11 +259,18 @@ deriving Repr, DecidableEq
 def reqFrames (r : Request) : List CFr := [.op, .it (.req r), .eos]
 
 /-- what an operation does before its first blocking read -/
-def cliStart (op : Op) (c : Cli) : Cli × List CFr :=
+def cliStart (sh : Shape) (op : Op) (c : Cli) : Cli × List CFr :=
+  -- the caller gets the conversion error; if the batch is built inside the `with new_ipc_stream(...)` block, unwinding
+  -- through the writer's `__exit__` has by then put a batch-less stream on the wire
+  let rejected (c : Cli) : Cli × List CFr :=
+    ({ c with nlog := 0, res := .raised, w := none }, if sh.requestBuiltBeforeStream then [] else [.op, .eos])
   match op with
-  | .call r => ({ c with nlog := 0, res := .none, w := some (.unaryOpen r.resultDecodes) }, reqFrames r)
+  | .call r =>
+    if r.clientRejects then rejected c
+    else ({ c with nlog := 0, res := .none, w := some (.unaryOpen r.resultDecodes) }, reqFrames r)
   | .open_ r hdr =>
-    if hdr then ({ c with nlog := 0, res := .none, sess := none, w := some .hdrOpen }, reqFrames r)
+    if r.clientRejects then rejected { c with sess := none }
+    else if hdr then ({ c with nlog := 0, res := .none, sess := none, w := some .hdrOpen }, reqFrames r)
     else ({ c with nlog := 0, res := .opened, sess := some .fresh, w := none }, reqFrames r)
   | .tick | .send =>
     let p : Purpose := if op = .tick then .tick else .send
@@ -396,7 +406,7 @@ def round (sh : Shape) (svc : Svc) (pol : Nat → Bool) (st : St) : St :=
 /-- run one client operation to quiescence.  Every operation is one lockstep exchange, so a fixed number of rounds
 suffices (that it does — the client is never left in a read, nothing is left for the server — is `C04_live`). -/
 def execOp (sh : Shape) (svc : Svc) (pol : Nat → Bool) (op : Op) (st : St) : St :=
-  let (cli', out) := cliStart op st.cli
+  let (cli', out) := cliStart sh op st.cli
   let st1 : St := { st with cli := cli', c2s := st.c2s ++ out, wc := st.wc ++ out }
   round sh svc pol (round sh svc pol (round sh svc pol st1))
 
